@@ -1208,4 +1208,76 @@ def stCallStarM (target meth : String) (args kwargs w : M) (k : V → V → M) :
 /-- `return x` of a method that acts on a world: the value and the world -/
 def pairM (x w : M) : M := bindM x fun x => bindM w fun w => .ok (.seq [x, w])
 
+/-! ### the publisher of `vakt/util.py` (`Subject`)
+
+The world is the pair (attached listeners, the `update()` calls made so far, oldest first).  A listener is identified by a plain
+value (an integer id in the obligations); `listener.update()` is a call out of the publisher - recorded, with no effect on the list of
+listeners (the one listener vakt attaches, `AllowanceCache.update`, clears a cache). -/
+
+def subjW (ls calls : List PyVal) : V := .seq [.py (.list ls), .py (.list calls)]
+
+/-- `self._listeners` -/
+def listenersM (w : M) : M := bindM w fun x => match x with
+  | .seq [.py (.list ls), .py (.list _)] => .ok (.py (.list ls))
+  | _ => raiseM
+
+/-- `self._listeners = value` (in `__init__` the attribute does not exist yet: whatever stands in its place is replaced) -/
+def setListenersM (v w : M) (k : V → M) : M := bindM v fun x => bindM w fun y => match x, y with
+  | .py (.list ls), .seq [_, .py (.list calls)] => k (subjW ls calls)
+  | _, _ => raiseM
+
+/-- `self._listeners.append(listener)` -/
+def listenerAppendM (l w : M) (k : V → M) : M := bindM l fun x => bindM w fun y => match x, y with
+  | .py v, .seq [.py (.list ls), .py (.list calls)] => k (subjW (ls ++ [v]) calls)
+  | _, _ => raiseM
+
+/-- `list.remove` over listener ids: the first equal one goes; `none` when there is none (Python raises ValueError) -/
+def eraseFirstId (n : Int) : List PyVal → Option (List PyVal)
+  | [] => Option.none
+  | .int m :: rest => if m = n then some rest else (eraseFirstId n rest).map (PyVal.int m :: ·)
+  | _ :: _ => Option.none
+
+/-- `self._listeners.remove(listener)` -/
+def listenerRemoveM (l w : M) (k : V → M) : M := bindM l fun x => bindM w fun y => match x, y with
+  | .py (.int n), .seq [.py (.list ls), .py (.list calls)] =>
+    (match eraseFirstId n ls with
+     | some ls' => k (subjW ls' calls)
+     | Option.none => raiseM)
+  | _, _ => raiseM
+
+/-! ### `AllowanceCache.__init__`: attribute writes on two objects, the cache back-end and the wrapped method as opaque values -/
+
+/-- `<object>.<name> = value` (a plain attribute write); what follows sees the changed object -/
+def objSetS (a : M) (name : String) (v : M) (k : V → M) : M :=
+  bindM a fun x => bindM v fun w => match x with
+    | .obj fs => k (.obj (objSet name w fs))
+    | _ => raiseM
+
+/-- `<object>.<name>` (AttributeError when there is none) -/
+def objAttrM (a : M) (name : String) : M :=
+  bindM a fun x => match x with
+    | .obj fs => (match objGet name fs with | some v => .ok v | Option.none => raiseM)
+    | _ => raiseM
+
+def lruTag : V := .py (.str "LRUCache".toList)
+def wrappedTag : V := .py (.str "wrapped".toList)
+
+/-- `LRUCache(maxsize=m)`: a new back-end, known by its class and its capacity -/
+def lruNewM (m : M) : M := bindM m fun x => .ok (.seq [lruTag, x])
+
+/-- `backend.wrap(f)`: the function `f` behind the back-end's cache, as an opaque value that names both -/
+def wrapM (c f : M) : M := bindM c fun x => bindM f fun y => .ok (.seq [wrappedTag, x, y])
+
+/-- `target.<meth>()` for a call that leaves the modelled code (the back-end's `invalidate`): recorded, oldest first, with the object it
+is made on -/
+def callOutM (meth : String) (target out : M) (k : V → M) : M :=
+  bindM target fun t => bindM out fun o => match o with
+    | .seq calls => k (.seq (calls ++ [.seq [.py (.str meth.toList), t]]))
+    | _ => raiseM
+
+/-- `listener.update()` -/
+def listenerUpdateM (l w : M) (k : V → M) : M := bindM l fun x => bindM w fun y => match x, y with
+  | .py v, .seq [.py (.list ls), .py (.list calls)] => k (subjW ls (calls ++ [v]))
+  | _, _ => raiseM
+
 end Vakt.PyPrim
